@@ -93,6 +93,13 @@ func c18contexts(r *h.Rand, pid int) []c18ctx {
 		{context.Background(), "ctxnone", "none"},
 		{context.TODO(), "ctxnone", "none"},
 		{context.WithValue(context.Background(), c18ctxKey("cid"), 5), "ctxnone", "none"},
+		// values the APPLICATION keeps in the context under keys of its own — plain strings among them, whatever they
+		// spell — are not the connection id: the line carries the id the library put there (or none)
+		{context.WithValue(lib, "cid.logger.ossrs.org", 7), fmt.Sprintf("ctx:%d", cid), fmt.Sprintf("pidcid %d %d", pid, cid)},
+		{context.WithValue(lib, "cid.logger.ossrs.org", "seven"), fmt.Sprintf("ctx:%d", cid), fmt.Sprintf("pidcid %d %d", pid, cid)},
+		{context.WithValue(context.WithValue(lib, "cid", 8), "cidKey", 9), fmt.Sprintf("ctx:%d", cid), fmt.Sprintf("pidcid %d %d", pid, cid)},
+		{context.WithValue(context.Background(), "cid.logger.ossrs.org", 7), "ctxnone", "none"},
+		{ol.AliasContext(context.Background(), context.WithValue(lib, "cid.logger.ossrs.org", 7)), fmt.Sprintf("ctx:%d", cid), fmt.Sprintf("pidcid %d %d", pid, cid)},
 		{"a string", "other", "none"},
 		{42, "other", "none"},
 		{struct{}{}, "other", "none"},
